@@ -2,6 +2,7 @@ import KojenVerif.Lemmas.DocCheck
 import KojenVerif.Lemmas.Table
 import KojenVerif.Props.C01
 import KojenVerif.Model.Engine
+import KojenVerif.Generated.Templates
 /-
   C07 — outputs stay re-preservable: tags fully expanded, USER tags paired and unique.
 
@@ -157,5 +158,202 @@ example : wfFresh exFile = true ∧ noGenTag exFile = true := by decide
 example : wfFresh (exFile ++ [Engine.T "/// {{{USER_MEMBERS}}}\n", Engine.T "/// {{{USER_MEMBERS}}}\n"]) = false := by decide
 example : noGenTag [Engine.T "x <<<STATENAME>>>\n"] = false := by decide
 end Example
+
+/-! ## whole-file uniqueness of the per-element tags -/
+/-
+  C07, continued — **whole-file uniqueness of the per-element USER tags, for every model.**
+
+  `Props/C07.lean` shows that one tag template over a duplicate-free element list gives distinct
+  keys and that two particular families do not meet.  This file puts the families of one generated
+  state-machine file together: the keys of a file are
+
+      others  ++  USER_<guard>  ++  USER_<state>_<r> (r in a fixed list R of hook suffixes:
+                                     on_entry, on_exit, DEFERRED_EVENTS)  ++  USER_<action>_<event>
+
+  and `C07_file_keys_nodup` proves them pairwise distinct for *every* transition table whose guard,
+  state and action names carry no '_' and in which no (action, event) pair imitates a hook of a
+  state (`action ∈ states → event ∉ R`), given that the other keys of the file (static tags, the
+  `On<state>Entry` family) are distinct and differ from the dynamic ones.  The three `example`s
+  after it show that each naming hypothesis is needed (concrete colliding names, by evaluation);
+  DESIGN 11.6 records them as the naming convention under which C07 is stated.
+
+  `C07_shipped_sm_schemes_classified` ties the theorem to the tree: every USER tag of every
+  shipped state-machine template (regenerated into `Generated.Templates` on every run) is of one
+  of the classes the theorem covers — static, guard, state + suffix, action + event, or a state
+  name wrapped in fixed words — so a template edit that introduces another per-element scheme
+  (say `USER_<<<EVENTNAME>>>_<<<STATENAME>>>`) breaks this obligation.
+-/
+
+/-- `a_r` -/
+def sfx (p : Str × Str) : Str := p.1 ++ [US] ++ p.2
+
+/-- the (name, suffix) pairs of one file: every state with every hook suffix, then the
+    (action, event) pairs -/
+def derived (S R : List Str) (P : List (Str × Str)) : List (Str × Str) :=
+  R.flatMap (fun r => S.map (fun s => (s, r))) ++ P
+
+/-- names (between `USER_` and the end of the key) of the per-element tags of one file -/
+def dynNames (G S R : List Str) (P : List (Str × Str)) : List Str := G ++ (derived S R P).map sfx
+
+/-- all keys of one file -/
+def fileKeys (pre post : Str) (others G S R : List Str) (P : List (Str × Str)) : List Str :=
+  (others ++ dynNames G S R P).map (inst1 pre post)
+
+theorem nodup_map_of_inj_on {α β : Type} (f : α → β) (l : List α) (h : l.Nodup)
+    (hf : ∀ a ∈ l, ∀ b ∈ l, f a = f b → a = b) : (l.map f).Nodup := by
+  induction l with
+  | nil => simp
+  | cons a l ih =>
+    rw [List.nodup_cons] at h
+    rw [List.map_cons, List.nodup_cons]
+    refine ⟨?_, ih h.2 (fun x hx y hy => hf x (List.mem_cons_of_mem _ hx) y (List.mem_cons_of_mem _ hy))⟩
+    intro hm
+    obtain ⟨b, hb, hfb⟩ := List.mem_map.mp hm
+    have := hf b (List.mem_cons_of_mem _ hb) a List.mem_cons_self hfb
+    exact h.1 (this ▸ hb)
+
+theorem mem_derived_left {S R : List Str} {p : Str × Str}
+    (h : p ∈ R.flatMap (fun r => S.map (fun s => (s, r)))) : p.1 ∈ S ∧ p.2 ∈ R := by
+  obtain ⟨r, hr, hp⟩ := List.mem_flatMap.mp h
+  obtain ⟨s, hs, rfl⟩ := List.mem_map.mp hp
+  exact ⟨hs, hr⟩
+
+theorem hooks_nodup (S R : List Str) (hS : S.Nodup) (hR : R.Nodup) :
+    (R.flatMap (fun r => S.map (fun s => (s, r)))).Nodup := by
+  induction R with
+  | nil => simp
+  | cons r R ih =>
+    rw [List.nodup_cons] at hR
+    rw [List.flatMap_cons, List.nodup_append]
+    refine ⟨nodup_map_of_inj_on _ S hS (fun a _ b _ h => (Prod.mk.inj h).1), ih hR.2, ?_⟩
+    intro a ha b hb hab
+    obtain ⟨s, _, rfl⟩ := List.mem_map.mp ha
+    have := (mem_derived_left (hab ▸ hb : (s, r) ∈ _)).2
+    exact hR.1 this
+
+theorem derived_nodup (S R : List Str) (P : List (Str × Str)) (hS : S.Nodup) (hR : R.Nodup) (hP : P.Nodup)
+    (hook : ∀ p ∈ P, p.1 ∈ S → p.2 ∉ R) : (derived S R P).Nodup := by
+  unfold derived
+  rw [List.nodup_append]
+  refine ⟨hooks_nodup S R hS hR, hP, ?_⟩
+  intro a ha b hb hab
+  have := mem_derived_left ha
+  exact hook b hb (hab ▸ this.1) (hab ▸ this.2)
+
+theorem sfx_inj (p q : Str × Str) (hp : US ∉ p.1) (hq : US ∉ q.1) (h : sfx p = sfx q) : p = q := by
+  have := split_at_first_underscore p.1 q.1 p.2 q.2 hp hq h
+  exact Prod.ext this.1 this.2
+
+/-- **Every model, whole file.** The per-element keys of one generated file are pairwise distinct,
+    and distinct from the file's other keys. -/
+theorem C07_file_keys_nodup (pre post : Str) (others G S R : List Str) (P : List (Str × Str))
+    (hO : others.Nodup) (hG : G.Nodup) (hS : S.Nodup) (hR : R.Nodup) (hP : P.Nodup)
+    (uG : ∀ g ∈ G, US ∉ g) (uS : ∀ s ∈ S, US ∉ s) (uP : ∀ p ∈ P, US ∉ p.1)
+    (hook : ∀ p ∈ P, p.1 ∈ S → p.2 ∉ R)
+    (hOD : ∀ x ∈ others, x ∉ dynNames G S R P) :
+    (fileKeys pre post others G S R P).Nodup := by
+  unfold fileKeys
+  apply nodup_map_of_inj_on _ _ _ (fun a _ b _ h => C07_same_template_injective pre post a b h)
+  rw [List.nodup_append]
+  refine ⟨hO, ?_, fun a ha b hb hab => hOD a ha (hab ▸ hb)⟩
+  unfold dynNames
+  rw [List.nodup_append]
+  have hu : ∀ p ∈ derived S R P, US ∉ p.1 := by
+    intro p hp
+    rcases List.mem_append.mp hp with h | h
+    · exact uS _ (mem_derived_left h).1
+    · exact uP p h
+  refine ⟨hG, ?_, ?_⟩
+  · exact nodup_map_of_inj_on sfx _ (derived_nodup S R P hS hR hP hook)
+      (fun a ha b hb h => sfx_inj a b (hu a ha) (hu b hb) h)
+  · intro g hg x hx hgx
+    obtain ⟨p, _, rfl⟩ := List.mem_map.mp hx
+    apply uG g hg
+    rw [hgx]; simp [sfx]
+
+/-- the key sets of the same file under two models: a state/guard/pair present in both keeps its
+    key (so C02's "surviving tags keep their code" speaks about the same element) -/
+theorem C07_key_stable_across_models (pre post : Str) (G G' S S' R : List Str) (P P' : List (Str × Str))
+    (p : Str × Str) (h : p ∈ derived S R P) (h' : p ∈ derived S' R P') :
+    inst1 pre post (sfx p) ∈ fileKeys pre post [] G S R P ∧ inst1 pre post (sfx p) ∈ fileKeys pre post [] G' S' R P' := by
+  constructor <;> (unfold fileKeys dynNames; simp only [List.nil_append, List.map_append, List.mem_append, List.mem_map])
+  · exact Or.inr ⟨sfx p, ⟨p, h, rfl⟩, rfl⟩
+  · exact Or.inr ⟨sfx p, ⟨p, h', rfl⟩, rfl⟩
+
+/-! ### each naming hypothesis is needed (concrete collisions, by evaluation) -/
+section Needed
+def hookR : List Str := [ofString "on_entry", ofString "on_exit", ofString "DEFERRED_EVENTS"]
+private def U := ofString "{{{USER_"
+/-- a guard named like a derived hook: `Idle_on_exit` -/
+example : ¬ (fileKeys U [] [] [ofString "Idle_on_exit"] [ofString "Idle"] hookR []).Nodup := by decide
+/-- an action named like a state, on an event named like a hook suffix -/
+example : ¬ (fileKeys U [] [] [] [ofString "Idle"] hookR [(ofString "Idle", ofString "on_entry")]).Nodup := by decide
+/-- action names with '_' : (Go_Now, Ev) and (Go, Now_Ev) -/
+example : ¬ (fileKeys U [] [] [] [] hookR [(ofString "Go_Now", ofString "Ev"), (ofString "Go", ofString "Now_Ev")]).Nodup := by decide
+/-- and a model inside the convention: hypotheses met, keys distinct -/
+example : (fileKeys U [] [ofString "MEMBERS"] [ofString "IsReady"] [ofString "Idle", ofString "Busy"] hookR
+    [(ofString "Go", ofString "Now_Ev"), (ofString "Go", ofString "Ev"), (ofString "Idle", ofString "Ev")]).Nodup := by decide
+end Needed
+
+/-! ### the shipped templates use only these schemes -/
+
+inductive Scheme where
+  | static | guard | stateSfx (r : Str) | actionEvent | stateWrap (pre post : Str)
+  deriving DecidableEq, Repr
+
+def LT3 : Str := [60, 60, 60]
+def tGuard : Str := LT3 ++ ofString "GUARDNAME"
+def tState : Str := LT3 ++ ofString "STATENAME"
+def tActEv : Str := LT3 ++ ofString "ACTIONNAME_" ++ LT3 ++ ofString "EVENTNAME"
+def tMachine : Str := LT3 ++ ofString "STATEMACHINENAME"
+
+/-- class of a cleaned tag name (the text after `{{{USER_` in `CleanUpLine`'s result, where
+    `>` and `}` are already gone) -/
+def classify (n : Str) : Option Scheme :=
+  if !contains LT3 n then some .static
+  else if n == tGuard then some .guard
+  else if n == tActEv then some .actionEvent
+  else if isPrefixB (tState ++ [US]) n then
+    let r := n.drop (tState.length + 1)
+    if contains LT3 r || r.isEmpty then none else some (.stateSfx r)
+  else match find tState n with
+    | some (i + 1) =>
+      let pre := n.take (i + 1)
+      let post := n.drop (i + 1 + tState.length)
+      if contains LT3 pre || contains LT3 post || isPrefixB [US] post then none else some (.stateWrap pre post)
+    | _ =>
+      -- only the per-model constant <<<STATEMACHINENAME>>> : one key per file
+      if replaceAll tMachine [] n |> contains LT3 then none else some .static
+
+/-- name part of a template tag line -/
+def schemeOf (l : Str) : Str :=
+  let k := cleanUp l
+  match find Generated.userPrefix k with
+  | some i => k.drop (i + Generated.userPrefix.length)
+  | none => k
+
+def smTemplateSets : List (List (Str × List Str)) :=
+  [Generated.smCpp, Generated.smCppBoost, Generated.smCs, Generated.smPy]
+
+def fileSchemesOK (ls : List Str) : Bool :=
+  (ls.filter isUserTag).all (fun l => (classify (schemeOf l)).isSome)
+
+/-- the hook suffixes used with `<<<STATENAME>>>_` anywhere in the shipped templates -/
+def usedSuffixes (ls : List Str) : List Str :=
+  (ls.filter isUserTag).filterMap (fun l => match classify (schemeOf l) with
+    | some (.stateSfx r) => some r | _ => none)
+
+/-- Every USER tag of every shipped state-machine template falls in a class covered by
+    `C07_file_keys_nodup`, and the state suffixes in use are exactly the hook list. -/
+theorem C07_shipped_sm_schemes_classified :
+    smTemplateSets.all (fun set => set.all (fun f => fileSchemesOK f.2 &&
+      (usedSuffixes f.2).all (fun r => hookR.contains r))) = true := by
+  decide +kernel
+
+example : classify (schemeOf (ofString "    # {{{USER_<<<STATENAME>>>_on_exit}}}\n")) = some (.stateSfx (ofString "on_exit")) := by decide +kernel
+example : classify (schemeOf (ofString "/// {{{USER_On<<<STATENAME>>>Entry}}}\n")) = some (.stateWrap (ofString "On") (ofString "Entry")) := by decide +kernel
+example : classify (schemeOf (ofString "/// {{{USER_<<<EVENTNAME>>>_<<<STATENAME>>>}}}\n")) = none := by decide +kernel
+example : classify (schemeOf (ofString "/// {{{USER_<<<STATENAME>>><<<EVENTNAME>>>}}}\n")) = none := by decide +kernel
+
 
 end KojenVerif.C07
